@@ -19,6 +19,7 @@ import (
 	"errors"
 	"fmt"
 	"os"
+	"reflect"
 	"runtime"
 	"sort"
 	"strconv"
@@ -694,7 +695,9 @@ func c03Gen(c int) *c03Case {
 		cs.shutCtxD = []time.Duration{time.Millisecond, 50 * time.Millisecond, time.Second, 2500 * time.Millisecond}[rnd.IntN(4)]
 	}
 	cs.acts = append(cs.acts, c03Act{at: sd, shutdown: true})
-	for i := 0; i < rnd.IntN(3) && !direct; i++ { // late sends (a Send after Shutdown of a queue-less exporter is the caller's export call)
+	// late sends; for a queue-less exporter a Send after Shutdown is the caller's own export call: its FIRST attempt may begin after
+	// the return, a retry of it may not (the stopped retry sender returns a shutdown error instead of backing off)
+	for i := 0; i < rnd.IntN(3); i++ {
 		cs.acts = append(cs.acts, c03Act{at: sd + c03Gaps[rnd.IntN(len(c03Gaps))], rid: nSend + 1 + i, n: 1 + rnd.IntN(4)})
 	}
 	sort.SliceStable(cs.acts, func(i, j int) bool { return cs.acts[i].at < cs.acts[j].at })
@@ -865,6 +868,7 @@ type c03Run struct {
 	hung      bool
 	buildErr  error
 	panicked  string
+	rt        string // the runtime object the constructors built, read by reflection (c03Reflect)
 }
 
 func (r *c03Run) log(e c03Ev) {
@@ -950,6 +954,7 @@ func c03Exec(cs *c03Case, set exporter.Settings, probe func(run *c03Run)) *c03Ru
 		run.buildErr = err
 		return run
 	}
+	run.rt = c03Reflect(exp)
 	sendCtx, cancelSends := context.WithCancel(bg)
 	probeSem := make(chan struct{}, 1)
 	var wg sync.WaitGroup
@@ -1288,8 +1293,16 @@ func c03Judge(cs *c03Case, run *c03Run) c03Verdict {
 		}
 	}
 	if retAt >= 0 {
+		direct := !cs.cfg.queue && cs.cfg.batch == 0
+		roots := c03Roots(run.evs)
 		for _, e := range run.evs[retAt+1:] {
 			if e.kind == "es" {
+				// queue-less exporter: the FIRST attempt of a Send runs on the caller's goroutine whenever the caller comes (also
+				// after Shutdown: the caller's business); what must not begin after the return is a RETRY (Lean: Direct.lateRetries,
+				// proved to accept every run of the direct-mode LTS, C03_direct_bridge)
+				if direct && roots[e.id] == e.id {
+					continue
+				}
 				v.lateCalls = append(v.lateCalls, e.id)
 			}
 		}
@@ -1384,8 +1397,55 @@ func c03EmitOps(out *vOut, idx int, cs *c03Case) {
 	}
 }
 
+// c03Reflect reads, off the REAL exporter object (after Start), what NewBaseExporter -> NewQueueSender -> newQueueBatchConfig ->
+// newQueueBatch -> newAsyncQueue / newDefaultBatcher made of the options: is there a queue sender / a retry sender, the queue kind,
+// wait_for_result as it reached the memory queue, the number of consumer goroutines, the batcher kind, the capacity of its worker
+// pool and whether its timer exists.  Compared by the driver with the Lean function `derive` (Model/C03Cfg.lean).
+func c03Reflect(comp component.Component) (out string) {
+	defer func() {
+		if r := recover(); r != nil {
+			out = "err=" + strings.ReplaceAll(fmt.Sprint(r), " ", "_")
+		}
+	}()
+	be := reflect.ValueOf(comp).Elem().FieldByName("BaseExporter").Elem()
+	retry := !be.FieldByName("RetrySender").IsNil()
+	qsv := be.FieldByName("QueueSender")
+	if qsv.IsNil() {
+		return fmt.Sprintf("qs=0 retry=%d numcpu=%d", vB(retry), runtime.NumCPU())
+	}
+	qb := qsv.Elem().Elem()
+	oq := qb.FieldByName("queue").Elem().Elem()
+	aq := oq.FieldByName("Queue").Elem().Elem()
+	consumers := aq.FieldByName("numConsumers").Int()
+	rq := aq.FieldByName("readableQueue").Elem().Elem()
+	persistent := strings.HasPrefix(rq.Type().Name(), "persistentQueue")
+	if !persistent && !strings.HasPrefix(rq.Type().Name(), "memoryQueue") {
+		panic("unknown queue type " + rq.Type().Name())
+	}
+	wfr := false
+	if !persistent {
+		wfr = rq.FieldByName("waitForResult").Bool()
+	}
+	b := qb.FieldByName("batcher").Elem().Elem()
+	batching, workers, timer := false, 0, false
+	switch {
+	case strings.HasPrefix(b.Type().Name(), "defaultBatcher"):
+		batching = true
+		workers = b.FieldByName("workerPool").Cap()
+		timer = !b.FieldByName("timer").IsNil()
+	case strings.HasPrefix(b.Type().Name(), "disabledBatcher"):
+	default:
+		panic("unknown batcher type " + b.Type().Name())
+	}
+	return fmt.Sprintf("qs=1 retry=%d persistent=%d wfr=%d consumers=%d batching=%d workers=%d timer=%d numcpu=%d",
+		vB(retry), vB(persistent), vB(wfr), consumers, vB(batching), workers, vB(timer), runtime.NumCPU())
+}
+
 func c03EmitTrace(out *vOut, cs *c03Case, run *c03Run) {
 	left := c03RetriesLeft(cs, run.evs)
+	if run.rt != "" {
+		out.Linef("tr rt %s", run.rt)
+	}
 	for _, e := range run.evs {
 		switch e.kind {
 		case "ss":
